@@ -561,7 +561,11 @@ func trimHead(s string, n int) string {
 func restartCheck(dir, base string, c *corpus, maxQueries int) (obs restartObs, child *storectl.Store) {
 	ch, err := storectl.Start("")
 	if err != nil {
-		return restartObs{Kind: "LFatal", Detail: "start: " + err.Error()}, nil
+		ch, err = storectl.Start("")
+	}
+	if err != nil {
+		// machinery trouble, not an observation: Kind stays empty, the caller reports a harness error
+		return restartObs{Detail: "start: " + err.Error()}, nil
 	}
 	listAfter := func() []string {
 		var out []string
@@ -789,16 +793,28 @@ type crashResult struct {
 // crash states, and (cycle 0) a second seal attempt on some states that came up active.
 func (d *driver) exploreSeal(r *rng.R, ci int, c *corpus, dir string, ingest bool, cycle int, parent any) {
 	s, callErr, err := tracedSeal(dir, c, ingest, storectl.Req{Op: "seal"})
+	for try := 0; err != nil && callErr == nil && ingest && try < 2; try++ {
+		// machinery trouble (strace log not understood, child could not be started): fresh directory, again
+		os.RemoveAll(dir)
+		dir = d.newDir()
+		s, callErr, err = tracedSeal(dir, c, ingest, storectl.Req{Op: "seal"})
+	}
 	if err != nil {
 		var he harnessErr
 		if errors.As(err, &he) && callErr != nil {
-			d.w.Violate("seal-child-died", "the store child died while sealing a fraction (fault-free run): "+trim(callErr.Error(), 400),
+			d.w.Violate("seal-child-died", "the store child died while sealing a fraction (fault-free run): "+fatalLine(callErr.Error()),
 				map[string]any{"corpus": c.summary(), "cycle": cycle, "parent": parent})
+			return
+		}
+		if cycle > 0 {
+			d.w.Count("skipped:second-seal-machinery-error")
+			fmt.Fprintf(os.Stderr, "second seal skipped (corpus %d): %v (call: %v)\n", ci, err, callErr)
 			return
 		}
 		d.harnessError("traced seal (corpus %d cycle %d): %v (call: %v)", ci, cycle, err, callErr)
 		return
 	}
+	defer os.RemoveAll(dir)
 	in := map[string]any{"seed": d.seed, "tier": d.tier, "corpus_index": ci, "corpus": c.summary(), "cycle": cycle}
 	if parent != nil {
 		in["sealed_again_after_crash"] = parent
@@ -863,6 +879,11 @@ func (d *driver) exploreSeal(r *rng.R, ci int, c *corpus, dir string, ingest boo
 			obs, ch := restartCheck(cd, s.base, c, d.maxQ)
 			if ch != nil {
 				ch.Close()
+			}
+			if obs.Kind == "" {
+				d.harnessError("restart child: %s", obs.Detail)
+				os.RemoveAll(cd)
+				return
 			}
 			res[i] = crashResult{spec: sp, before: sizesOf(st, s.base), obs: obs}
 			if again[i] && obs.Kind == "LActive" && obs.Served {
@@ -1150,17 +1171,31 @@ func (d *driver) limits(r *rng.R, ci int, c *corpus, p plan, count int) {
 			defer os.RemoveAll(dir)
 			ex, _ := json.Marshal(limitReq{Limit: uint64(l)})
 			s, callErr, err := tracedSeal(dir, c, true, storectl.Req{Op: "c08_seal_limit", Extra: ex})
-			if err != nil {
-				d.harnessError("limit run (corpus %d limit %d): %v (call: %v)", ci, l, err, callErr)
+			if err != nil || (callErr != nil && !errors.Is(callErr, storectl.ErrDied)) {
+				fmt.Fprintf(os.Stderr, "limit run skipped (corpus %d limit %d): %v (call: %v)\n", ci, l, err, callErr)
+				d.mu.Lock()
+				d.w.Count("skipped:limit-machinery-error")
+				d.mu.Unlock()
 				return
 			}
-			if callErr != nil && !errors.Is(callErr, storectl.ErrDied) {
-				d.harnessError("limit run (corpus %d limit %d): %v", ci, l, callErr)
-				return
+			// the plan comes from another run of the same corpus; the info block is the only part
+			// that depends on the run (timestamps, path): if its size differs the plan does not apply
+			for _, o := range s.ops {
+				if o.Kind == "write" && o.F == "IndexTmp" && o.Off == 16 {
+					if o.Len < p.Secs[0].Sizes[0] && l >= 16+p.Secs[0].Sizes[0] || o.Len > p.Secs[0].Sizes[0] {
+						d.mu.Lock()
+						d.w.Count("skipped:limit-plan-mismatch")
+						d.mu.Unlock()
+						return
+					}
+				}
 			}
 			obs, ch := restartCheck(dir, s.base, c, d.maxQ)
 			if ch != nil {
 				ch.Close()
+			}
+			if obs.Kind == "" {
+				return
 			}
 			res[i] = &out{s, callErr, obs, l}
 		}(i, l)
@@ -1225,33 +1260,36 @@ func main() {
 		skip bool
 	}
 	var cfgs []cfg
+	nl, faultOnlyFrom := 4, 2000
 	if *tier == "quick" {
-		cfgs = []cfg{{r.Range(1, 3), false}, {r.Range(4, 30), false}, {r.Range(4, 30), true}, {r.Range(60, 300), r.Bool()}}
+		cfgs = []cfg{{r.Range(1, 3), false}, {r.Range(1, 3), true}, {r.Range(4, 30), false}, {r.Range(4, 30), true},
+			{r.Range(4, 60), r.Bool()}, {r.Range(60, 300), false}, {r.Range(60, 300), true}, {r.Range(4200, 4600), r.Bool()}}
 	} else {
 		d.maxQ = 8
-		for i := 0; i < 10; i++ {
-			cfgs = append(cfgs, cfg{r.Range(1, 40), i%2 == 1})
+		nl = 10
+		faultOnlyFrom = 1 << 30
+		for i := 0; i < 24; i++ {
+			cfgs = append(cfgs, cfg{r.Range(1, 60), i%2 == 1})
 		}
-		cfgs = append(cfgs, cfg{r.Range(300, 1500), false}, cfg{r.Range(300, 1500), true}, cfg{r.Range(4200, 6000), false})
+		cfgs = append(cfgs, cfg{r.Range(300, 1500), false}, cfg{r.Range(300, 1500), true},
+			cfg{r.Range(4200, 6000), false}, cfg{r.Range(4200, 9000), true})
 	}
 	for ci, cf := range cfgs {
 		cr := r.Fork()
 		c := genCorpus(cr, cf.n, cf.skip)
 		w.Count(fmt.Sprintf("corpus:skip=%v", cf.skip))
-		big := cf.n > 2000
+		big := cf.n >= faultOnlyFrom
 		if !big {
 			d.exploreSeal(cr.Fork(), ci, c, d.newDir(), true, 0, nil)
 		}
 		d.faults(cr.Fork(), ci, c)
 		if !big {
 			// plan of this corpus for the limit runs: from a fresh traced seal
-			nl := 4
-			if *tier != "quick" {
-				nl = 10
-			}
 			dir := d.newDir()
 			if s, callErr, err := tracedSeal(dir, c, true, storectl.Req{Op: "seal"}); err == nil && callErr == nil && s.makePlan(c.Skip) == nil {
 				d.limits(cr.Fork(), ci, c, s.plan, nl)
+			} else {
+				w.Count("skipped:limit-plan-run")
 			}
 			os.RemoveAll(dir)
 		}
